@@ -336,6 +336,36 @@ func TestSpreadAttribution(t *testing.T) {
 	}
 }
 
+// TestSpreadZoneNames: the generator built from instance and zone *names* finds the zone index in the
+// sorted zone list, whatever order the caller configured the zones in: two members configured with
+// differently ordered lists agree on everybody's tokens.
+func TestSpreadZoneNames(t *testing.T) {
+	rapid.Check(t, func(rt *rapid.T) {
+		nz := rapid.IntRange(1, 8).Draw(rt, "zones")
+		var zones []string
+		for z := 0; z < nz; z++ {
+			zones = append(zones, fmt.Sprintf("zone-%c", 'a'+z))
+		}
+		perm := rapid.Permutation(zones).Draw(rt, "configuredOrder")
+		zi := rapid.IntRange(0, nz-1).Draw(rt, "zone")
+		inst := rapid.IntRange(0, vx.Pick(20, 120)).Draw(rt, "instance")
+		name := fmt.Sprintf("ingester-%s-%d", zones[zi], inst)
+		g, err := ring.NewSpreadMinimizingTokenGenerator(name, zones[zi], perm, rapid.Bool().Draw(rt, "canJoin"))
+		if err != nil {
+			rt.Fatalf("NewSpreadMinimizingTokenGenerator(%q, %q, %v): %v", name, zones[zi], perm, err)
+		}
+		got := g.GenerateTokens(512, nil)
+		want := ring.NewSpreadMinimizingTokenGeneratorForInstanceAndZoneID("x-", inst, zi, false).GenerateTokens(512, nil)
+		vx.Eval(1)
+		if !slices.IsSorted(perm) {
+			vx.NonTrivial(vx.FP("zonenames", fmt.Sprint(perm), zi, inst))
+		}
+		if fmt.Sprint(got) != fmt.Sprint(want) {
+			rt.Fatalf("instance %q with zones configured as %v: tokens %v... differ from those of instance %d of zone index %d (%v...); token %% 8 = %d", name, perm, head(got), inst, zi, head(want), got[0]%8)
+		}
+	})
+}
+
 func TestSpreadPrefixes(t *testing.T) {
 	n := vx.Pick(150, 2000)
 	if vx.Thorough() {
@@ -430,6 +460,16 @@ func TestPartitionTokens(t *testing.T) {
 		ref := ring.NewSpreadMinimizingTokenGeneratorForInstanceAndZoneID("zz-", int(p), 0, true).GenerateTokens(512, nil)
 		if fmt.Sprint([]uint32(ref)) != fmt.Sprint(toks) {
 			t.Fatalf("partition %d: tokens differ from the spread-minimising tokens of instance %d zone 0", p, p)
+		}
+	}
+	// adding a partition that is already there (e.g. to re-register it in another state) gives it the
+	// same tokens again: they are a function of the index, not of what the ring holds
+	for _, p := range []int32{0, 1, int32(n / 2), int32(n - 1)} {
+		before := fmt.Sprint(d.Partitions[p].Tokens)
+		d.AddPartition(p, ring.PartitionPending, time.Unix(200, 0))
+		vx.Eval(1)
+		if got := fmt.Sprint(d.Partitions[p].Tokens); got != before {
+			t.Fatalf("partition %d added a second time holds %d tokens, which differ from the %d it held", p, len(d.Partitions[p].Tokens), 512)
 		}
 	}
 	// a partition ring over them must build and route
